@@ -422,10 +422,7 @@ impl<'a, W: Write> Writer<'a, W> {
 
         num_bytes += self.append_raw(&num_values.try_into()?, &Schema::Long)?
             + self.append_raw(&stream_len.try_into()?, &Schema::Long)?
-            + self
-                .writer
-                .write(self.buffer.as_ref())
-                .map_err(Details::WriteBytes)?
+            + self.append_buffer()?
             + self.append_marker()?;
 
         self.buffer.clear();
@@ -476,13 +473,23 @@ impl<'a, W: Write> Writer<'a, W> {
         &mut self.writer
     }
 
+    /// Append the (compressed) block buffer to the payload.
+    fn append_buffer(&mut self) -> AvroResult<usize> {
+        // `write` may accept only a part of the buffer, `write_all` doesn't
+        self.writer
+            .write_all(self.buffer.as_ref())
+            .map_err(Details::WriteBytes)?;
+        Ok(self.buffer.len())
+    }
+
     /// Generate and append synchronization marker to the payload.
     fn append_marker(&mut self) -> AvroResult<usize> {
-        // using .writer.write directly to avoid mutable borrow of self
+        // using .writer.write_all directly to avoid mutable borrow of self
         // with ref borrowing of self.marker
         self.writer
-            .write(&self.marker)
-            .map_err(|e| Details::WriteMarker(e).into())
+            .write_all(&self.marker)
+            .map_err(Details::WriteMarker)?;
+        Ok(self.marker.len())
     }
 
     /// Append a raw Avro Value to the payload avoiding to encode it again.
@@ -492,9 +499,8 @@ impl<'a, W: Write> Writer<'a, W> {
 
     /// Append pure bytes to the payload.
     fn append_bytes(&mut self, bytes: &[u8]) -> AvroResult<usize> {
-        self.writer
-            .write(bytes)
-            .map_err(|e| Details::WriteBytes(e).into())
+        self.writer.write_all(bytes).map_err(Details::WriteBytes)?;
+        Ok(bytes.len())
     }
 
     /// Adds custom metadata to the file.
